@@ -22,6 +22,234 @@
 #undef private
 #undef protected
 
+// ---- scheduling points (harness/future_points.h is force-included: every __sync builtin in
+// Future.cpp calls verif_point first) ------------------------------------------------------------
+// perturbation mode: per-thread xorshift stream seeded by (case seed, thread arrival number);
+// level 0 = off, 1 = mostly yields, 2 = yields + short sleeps, 3 = heavy (long sleeps at few points)
+static volatile int g_perturb = 0;
+static volatile unsigned g_seed = 1;
+static volatile unsigned g_arrivals = 0;
+static __thread unsigned long long tl_rng = 0;
+static volatile unsigned long g_points = 0;
+
+static inline unsigned long long rng_next()
+{
+  if(!tl_rng) {
+    unsigned a = __atomic_add_fetch(&g_arrivals, 1, __ATOMIC_SEQ_CST);
+    tl_rng = 0x9E3779B97F4A7C15ULL * (g_seed + 1) + 0xD1B54A32D192ED03ULL * a + 1;
+  }
+  unsigned long long x = tl_rng;
+  x ^= x << 13; x ^= x >> 7; x ^= x << 17;
+  tl_rng = x ? x : 1;
+  return x;
+}
+
+static inline void perturb_point()
+{
+  int lvl = g_perturb;
+  if(!lvl) return;
+  unsigned r = (unsigned)(rng_next() >> 20);
+  unsigned k = r % 1000;
+  if(lvl == 1) { if(k < 250) sched_yield(); }
+  else if(lvl == 2) { if(k < 200) sched_yield(); else if(k < 230) usleep((r >> 10) % 120); }
+  else { if(k < 100) sched_yield(); else if(k < 112) usleep(200 + (r >> 10) % 1500); }
+}
+
+// ---- gates: partial-order replay of a model schedule --------------------------------------------
+// Rules are armed by `c <k> gate …` op lines, executed by client k in script order (the model and
+// the spec treat them as `pause`).  A rule matches a passage of a thread through a point:
+//   who   w = a pool worker (any thread that is neither a client nor main), c<k> = client k, m = main, * = any
+//   when  pre  = before the __sync builtin, post = after it, wake = pthread_cond_wait on the inner
+//         Signal of a FastSignal has returned (the woken thread then behaves like a thread that is
+//         slow to re-acquire the mutex: it unlocks it, runs the action, locks it again),
+//         bcast = pthread_cond_broadcast (end of Signal::set) has returned; obj enq, deq or fut (the
+//         Signal of a Future)
+//   obj   enq deq (FastSignal::_state resp. its Signal's condition variable), head tail (queue
+//         counters), nhead ntail (a slot's tickets), pushed processed, fut (anything else), *
+//   opnd  operand of the builtin (swap value, CAS new value) or *;  res: its result (post) or *
+//   count how many matching passages trigger the action; then the rule is spent
+// Actions: hold <slot> (wait until the slot is released), release <slot>,
+// sleep <us> [<permille>] (a targeted delay, taken with the given probability, default always),
+// await <slot> <n> (wait until n threads have been captured by holds on the slot),
+// slept <obj> <n> (wait until n threads have entered pthread_cond_wait of enq/deq since the mark).
+// Every wait gives up silently after G_TIMEOUT_US, so a gate can delay a case but never hang it.
+enum { G_MAXRULES = 32, G_MAXSLOTS = 8, G_TIMEOUT_US = 2000000 };
+enum { O_ANY = 0, O_ENQ, O_DEQ, O_HEAD, O_TAIL, O_PUSHED, O_PROCESSED, O_NHEAD, O_NTAIL, O_FUT, O_COUNT };
+enum { W_PRE = 1, W_POST = 2, W_WAKE = 3, W_BCAST = 4 };
+enum { A_NONE = 0, A_HOLD, A_RELEASE, A_SLEEP, A_AWAIT, A_SLEPT };
+struct Rule {
+  volatile int active;
+  int who, when, obj, opnd_any, res_any, action;
+  long opnd, res, a1, a2;
+  volatile int count;
+};
+struct Slot { volatile int released; volatile int captured; };
+static Rule g_rules[G_MAXRULES];
+static Slot g_slots[G_MAXSLOTS];
+static volatile int g_rules_on = 0;                 // number of rules armed in this case (fast path)
+static volatile long g_cw_entries[O_COUNT], g_cw_mark[O_COUNT];
+static volatile int g_gate_timeouts = 0;
+static __thread int tl_role = 0;                    // 0 worker, 1+k client k, 100 main
+static int g_trace = 0;
+
+static long long raw_us()
+{
+  struct timespec ts;
+  clock_gettime(CLOCK_MONOTONIC_RAW, &ts);          // not the scaled clock
+  return (long long)ts.tv_sec * 1000000LL + ts.tv_nsec / 1000;
+}
+
+static const char* const obj_names[O_COUNT] = { "*", "enq", "deq", "head", "tail", "pushed", "processed", "nhead", "ntail", "fut" };
+
+static int classify_addr(const volatile void* a)
+{
+  typedef Future<void>::Private P;
+  P::ThreadPool* tp = P::_threadPool;
+  if(!tp || !a) return O_FUT;
+  if(a == (const volatile void*)&tp->_enqueuedSignal._state) return O_ENQ;
+  if(a == (const volatile void*)&tp->_dequeuedSignal._state) return O_DEQ;
+  if(a == (const volatile void*)&tp->_queue._head) return O_HEAD;
+  if(a == (const volatile void*)&tp->_queue._tail) return O_TAIL;
+  if(a == (const volatile void*)&tp->_pushedJobs) return O_PUSHED;
+  if(a == (const volatile void*)&tp->_processedJobs) return O_PROCESSED;
+  typedef P::LockFreeQueue<P::ThreadPool::Job>::Node Node;
+  const char* q = (const char*)tp->_queue._queue;
+  const char* c = (const char*)a;
+  if(q && c >= q && c < q + sizeof(Node) * tp->_queue._capacity) {
+    size_t off = (size_t)(c - q) % sizeof(Node);
+    if(off == (size_t)&((Node*)0)->head) return O_NHEAD;
+    if(off == (size_t)&((Node*)0)->tail) return O_NTAIL;
+  }
+  return O_FUT;
+}
+
+static int classify_cond(const void* c)
+{
+  typedef Future<void>::Private P;
+  P::ThreadPool* tp = P::_threadPool;
+  if(!tp) return 0;
+  if(c == (const void*)tp->_enqueuedSignal._signal.cdata) return O_ENQ;
+  if(c == (const void*)tp->_dequeuedSignal._signal.cdata) return O_DEQ;
+  return 0;
+}
+
+#define GATE_WAIT(cond) do { \
+    long long t0_ = raw_us(); int spins_ = 0; \
+    while(!(cond)) { \
+      if(++spins_ < 200) sched_yield(); else usleep(50); \
+      if((spins_ & 63) == 0 && raw_us() - t0_ > G_TIMEOUT_US) { __atomic_add_fetch(&g_gate_timeouts, 1, __ATOMIC_RELAXED); break; } \
+    } } while(0)
+
+static void run_action(int id, Rule& r)
+{
+  if(g_trace) fprintf(stderr, "#gate %lld rule %d fires role=%d action=%d a1=%ld a2=%ld\n", raw_us(), id, tl_role, r.action, r.a1, r.a2);
+  switch(r.action) {
+  case A_HOLD:
+    if(r.a1 >= 0 && r.a1 < G_MAXSLOTS) {
+      Slot& s = g_slots[r.a1];
+      __atomic_add_fetch(&s.captured, 1, __ATOMIC_SEQ_CST);
+      GATE_WAIT(__atomic_load_n(&s.released, __ATOMIC_SEQ_CST));
+    }
+    break;
+  case A_RELEASE:
+    if(r.a1 >= 0 && r.a1 < G_MAXSLOTS) __atomic_store_n(&g_slots[r.a1].released, 1, __ATOMIC_SEQ_CST);
+    break;
+  case A_SLEEP: if(r.a2 >= 1000 || (long)((rng_next() >> 24) % 1000) < r.a2) usleep((useconds_t)r.a1); break;
+  case A_AWAIT:
+    if(r.a1 >= 0 && r.a1 < G_MAXSLOTS) GATE_WAIT(__atomic_load_n(&g_slots[r.a1].captured, __ATOMIC_SEQ_CST) >= r.a2);
+    break;
+  case A_SLEPT:
+    if(r.a1 > 0 && r.a1 < O_COUNT) GATE_WAIT(__atomic_load_n(&g_cw_entries[r.a1], __ATOMIC_SEQ_CST) - g_cw_mark[r.a1] >= r.a2);
+    break;
+  }
+  if(g_trace) fprintf(stderr, "#gate %lld rule %d done role=%d\n", raw_us(), id, tl_role);
+}
+
+// does some armed rule match?  (who, when, obj, operand, result); runs the actions in rule order
+static inline bool rule_matches(const Rule& r, int when, int obj, long opnd, long res)
+{
+  if(!r.active || r.when != when) return false;
+  if(r.who >= 0 && r.who != tl_role) return false;
+  if(r.obj != O_ANY && r.obj != obj) return false;
+  if(!r.opnd_any && r.opnd != opnd) return false;
+  if(when == W_POST && !r.res_any && r.res != res) return false;
+  return true;
+}
+
+static bool any_match(int when, int obj, long opnd, long res)
+{
+  for(int i = 0; i < G_MAXRULES; ++i)
+    if(rule_matches(g_rules[i], when, obj, opnd, res) && g_rules[i].count > 0) return true;
+  return false;
+}
+
+static void gate_point(int when, int obj, long opnd, long res)
+{
+  for(int i = 0; i < G_MAXRULES; ++i) {
+    Rule& r = g_rules[i];
+    if(!rule_matches(r, when, obj, opnd, res)) continue;
+    if(__atomic_fetch_sub(&r.count, 1, __ATOMIC_SEQ_CST) <= 0) { __atomic_add_fetch(&r.count, 1, __ATOMIC_SEQ_CST); continue; }
+    run_action(i, r);
+  }
+}
+
+extern "C" void verif_point(int kind, const volatile void* addr, long operand)
+{
+  (void)kind;
+  __atomic_add_fetch(&g_points, 1, __ATOMIC_RELAXED);
+  if(g_rules_on) gate_point(W_PRE, classify_addr(addr), operand, 0);
+  perturb_point();
+}
+
+extern "C" void verif_after(int kind, const volatile void* addr, long operand, long result)
+{
+  (void)kind;
+  if(g_rules_on) gate_point(W_POST, classify_addr(addr), operand, result);
+}
+
+// libnstd's pthread_cond_wait calls (Signal::wait) come here (-Wl,--wrap=pthread_cond_wait)
+extern "C" int __real_pthread_cond_wait(pthread_cond_t*, pthread_mutex_t*);
+extern "C" int __wrap_pthread_cond_wait(pthread_cond_t* c, pthread_mutex_t* m)
+{
+  int obj = classify_cond(c);
+  // counted while the mutex is still held: whoever sees the count knows that a later Signal::set()
+  // finds this thread waiting
+  if(obj) __atomic_add_fetch(&g_cw_entries[obj], 1, __ATOMIC_SEQ_CST);
+  int r = __real_pthread_cond_wait(c, m);
+  if(obj && g_rules_on && any_match(W_WAKE, obj, 0, 0)) {
+    pthread_mutex_unlock(m);
+    gate_point(W_WAKE, obj, 0, 0);
+    pthread_mutex_lock(m);
+  }
+  return r;
+}
+
+// libnstd's pthread_cond_broadcast calls (last statement of Signal::set) come here
+extern "C" int __real_pthread_cond_broadcast(pthread_cond_t*);
+extern "C" int __wrap_pthread_cond_broadcast(pthread_cond_t* c)
+{
+  int r = __real_pthread_cond_broadcast(c);
+  if(g_rules_on) { int obj = classify_cond(c); gate_point(W_BCAST, obj ? obj : O_FUT, 0, 0); }
+  return r;
+}
+
+static void gates_reset()
+{
+  g_rules_on = 0;
+  memset((void*)g_rules, 0, sizeof(g_rules));
+  memset((void*)g_slots, 0, sizeof(g_slots));
+  for(int i = 0; i < O_COUNT; ++i) { g_cw_entries[i] = 0; g_cw_mark[i] = 0; }
+  g_gate_timeouts = 0;
+}
+
+// after the clients have finished: nothing is held or delayed any more
+static void gates_off()
+{
+  for(int i = 0; i < G_MAXRULES; ++i) g_rules[i].active = 0;
+  for(int i = 0; i < G_MAXSLOTS; ++i) __atomic_store_n(&g_slots[i].released, 1, __ATOMIC_SEQ_CST);
+  g_rules_on = 0;
+}
+
 // ---- scaled monotonic clock (Time::ticks() -> clock_gettime(CLOCK_MONOTONIC)) ------------------
 static volatile long g_clock_scale = 1;
 typedef int (*cgt_fn)(clockid_t, struct timespec*);
@@ -45,7 +273,8 @@ extern "C" int clock_gettime(clockid_t id, struct timespec* ts)
 
 // ---- workload -----------------------------------------------------------------------------------
 enum { MAXF = 64, MAXC = 16, MAXOPS = 4096 };
-enum Kind { K_START, K_ABORT, K_JOIN, K_GET, K_CHECK, K_PAUSE };
+enum Kind { K_START, K_ABORT, K_JOIN, K_GET, K_CHECK, K_PAUSE, K_GATE };
+enum GateVerb { GV_NONE = 0, GV_RULE, GV_RELEASE, GV_AWAIT, GV_SLEPT, GV_MARK };
 
 struct CallRec {
   volatile int runs;
@@ -57,6 +286,7 @@ struct CallRec {
 
 struct Op {
   int client, kind, f, work; long long arg; long pause;
+  int gverb; long ga[4]; Rule grule; int gid;   // gate ops
   // observations
   long n;            // serial of the call this op refers to (0 = none)
   int after;         // join/get: 1 = completion stamp precedes return and ran == 1 at return
@@ -67,7 +297,7 @@ struct Op {
 
 static Op ops[MAXOPS];
 static int nops;
-static int cfg_min, cfg_max, cfg_q, cfg_clients, cfg_lazy;
+static int cfg_min, cfg_max, cfg_q, cfg_clients, cfg_lazy, cfg_perturb;
 static volatile unsigned long g_seq;
 static Future<int64>* futs[MAXF];
 static long serial[MAXF];        // per future: number of starts so far (owner thread only)
@@ -78,7 +308,7 @@ static inline int64 fn(int64 a) { return a * 7 + 3; }
 
 static int64 jobfn(CallRec* r, int64 arg)
 {
-  __sync_add_and_fetch(&r->runs, 1);
+  __atomic_add_fetch(&r->runs, 1, __ATOMIC_SEQ_CST);
   r->arg_seen = arg;
   switch(r->work) {
   case 1: for(int i = 0; i < 3; ++i) sched_yield(); break;
@@ -86,18 +316,112 @@ static int64 jobfn(CallRec* r, int64 arg)
   case 3: while(!r->fut->isAborting()) sched_yield(); break;
   default: break;
   }
-  r->done_stamp = __sync_add_and_fetch(&g_seq, 1);
+  r->done_stamp = __atomic_add_fetch(&g_seq, 1, __ATOMIC_SEQ_CST);
   return fn(arg);
 }
 
-static void begin(long, vh::Tok& t)
+// ---- watchdog report: what the pool looks like when a case does not finish ---------------------
+static volatile int g_phase = 0;   // 1 clients running, 2 destroying futures, 3 destroying the pool
+static volatile long g_case = -1;
+static void on_alarm(int)
 {
+  typedef Future<void>::Private P;
+  P::ThreadPool* tp = P::_threadPool;
+  char buf[512];
+  int n;
+  if(tp)
+    n = snprintf(buf, sizeof(buf), "%ld deadlock phase=%d queue.head=%lu queue.tail=%lu enq.state=%lu enq.flag=%d deq.state=%lu deq.flag=%d pushed=%lu processed=%lu threads=%lu\n",
+                 g_case, g_phase, (unsigned long)tp->_queue._head, (unsigned long)tp->_queue._tail,
+                 (unsigned long)tp->_enqueuedSignal._state, (int)tp->_enqueuedSignal._signal.signaled,
+                 (unsigned long)tp->_dequeuedSignal._state, (int)tp->_dequeuedSignal._signal.signaled,
+                 (unsigned long)tp->_pushedJobs, (unsigned long)tp->_processedJobs, (unsigned long)tp->_threadCount);
+  else
+    n = snprintf(buf, sizeof(buf), "%ld deadlock phase=%d no pool\n", g_case, g_phase);
+  if(n > 0) { ssize_t w = write(1, buf, (size_t)n); (void)w; }
+  signal(SIGALRM, SIG_DFL);
+  raise(SIGALRM);
+}
+
+static void begin(long cno, vh::Tok& t)
+{
+  g_case = cno; g_phase = 0;
+  signal(SIGALRM, on_alarm);
   nops = 0;
   cfg_min = 0; cfg_max = 3; cfg_q = 4; cfg_clients = 1; cfg_lazy = 0; g_clock_scale = 1;
-  // case <n> wl <min> <max> <qcap> <clients> <clockscale> <lazy>
+  g_perturb = 0; g_seed = 1; g_arrivals = 0;
+  gates_reset();
+  // case <n> wl <min> <max> <qcap> <clients> <clockscale> <lazy> [<perturb> <seed>]
   if(t.n >= 9) {
     cfg_min = atoi(t.v[3]); cfg_max = atoi(t.v[4]); cfg_q = atoi(t.v[5]);
     cfg_clients = atoi(t.v[6]); g_clock_scale = atol(t.v[7]); cfg_lazy = atoi(t.v[8]);
+  }
+  if(t.n >= 11) { cfg_perturb = atoi(t.v[9]); g_seed = (unsigned)atol(t.v[10]); }
+  else cfg_perturb = 0;
+}
+
+// c <k> gate rule <id> <who> <when> <obj> <opnd> <res> <count> <action> [<a1> [<a2>]]
+// c <k> gate release <slot> | await <slot> <n> | slept <obj> <n> | mark <obj>
+static int obj_of(const char* s)
+{
+  for(int i = 0; i < O_COUNT; ++i) if(!strcmp(s, obj_names[i])) return i;
+  return O_ANY;
+}
+
+static void parse_gate(Op& o, vh::Tok& t)
+{
+  o.gverb = GV_NONE;
+  if(t.n < 4) return;
+  const char* v = t.v[3];
+  if(!strcmp(v, "rule") && t.n >= 12) {
+    Rule& r = o.grule;
+    memset((void*)&r, 0, sizeof(r));
+    o.gid = atoi(t.v[4]);
+    const char* w = t.v[5];
+    r.who = !strcmp(w, "w") ? 0 : !strcmp(w, "m") ? 100 : w[0] == 'c' ? 1 + atoi(w + 1) : -1;
+    r.when = !strcmp(t.v[6], "pre") ? W_PRE : !strcmp(t.v[6], "post") ? W_POST : !strcmp(t.v[6], "wake") ? W_WAKE : !strcmp(t.v[6], "bcast") ? W_BCAST : 0;
+    r.obj = obj_of(t.v[7]);
+    r.opnd_any = !strcmp(t.v[8], "*"); r.opnd = atol(t.v[8]);
+    r.res_any = !strcmp(t.v[9], "*"); r.res = atol(t.v[9]);
+    r.count = atoi(t.v[10]);
+    const char* a = t.v[11];
+    r.action = !strcmp(a, "hold") ? A_HOLD : !strcmp(a, "release") ? A_RELEASE : !strcmp(a, "sleep") ? A_SLEEP
+             : !strcmp(a, "await") ? A_AWAIT : !strcmp(a, "slept") ? A_SLEPT : A_NONE;
+    if(r.action == A_SLEPT) { r.a1 = t.n > 12 ? obj_of(t.v[12]) : 0; r.a2 = t.n > 13 ? atol(t.v[13]) : 1; }
+    else { r.a1 = t.n > 12 ? atol(t.v[12]) : 0; r.a2 = t.n > 13 ? atol(t.v[13]) : (r.action == A_SLEEP ? 1000 : 1); }
+    if(o.gid >= 0 && o.gid < G_MAXRULES && r.when && r.action) o.gverb = GV_RULE;
+  }
+  else if(!strcmp(v, "release") && t.n >= 5) { o.gverb = GV_RELEASE; o.ga[0] = atol(t.v[4]); }
+  else if(!strcmp(v, "await") && t.n >= 6) { o.gverb = GV_AWAIT; o.ga[0] = atol(t.v[4]); o.ga[1] = atol(t.v[5]); }
+  else if(!strcmp(v, "slept") && t.n >= 6) { o.gverb = GV_SLEPT; o.ga[0] = obj_of(t.v[4]); o.ga[1] = atol(t.v[5]); }
+  else if(!strcmp(v, "mark") && t.n >= 5) { o.gverb = GV_MARK; o.ga[0] = obj_of(t.v[4]); }
+}
+
+static void exec_gate(Op& o)
+{
+  if(g_trace) fprintf(stderr, "#gate %lld client op verb=%d\n", raw_us(), o.gverb);
+  switch(o.gverb) {
+  case GV_RULE: {
+    Rule& r = g_rules[o.gid];
+    r.active = 0;
+    __atomic_thread_fence(__ATOMIC_SEQ_CST);
+    int cnt = o.grule.count;
+    r = o.grule; r.count = cnt;
+    __atomic_thread_fence(__ATOMIC_SEQ_CST);
+    r.active = 1;
+    __atomic_add_fetch(&g_rules_on, 1, __ATOMIC_SEQ_CST);
+    break; }
+  case GV_RELEASE:
+    if(o.ga[0] >= 0 && o.ga[0] < G_MAXSLOTS) __atomic_store_n(&g_slots[o.ga[0]].released, 1, __ATOMIC_SEQ_CST);
+    break;
+  case GV_AWAIT:
+    if(o.ga[0] >= 0 && o.ga[0] < G_MAXSLOTS) GATE_WAIT(__atomic_load_n(&g_slots[o.ga[0]].captured, __ATOMIC_SEQ_CST) >= o.ga[1]);
+    break;
+  case GV_SLEPT:
+    if(o.ga[0] > 0 && o.ga[0] < O_COUNT) GATE_WAIT(__atomic_load_n(&g_cw_entries[o.ga[0]], __ATOMIC_SEQ_CST) - g_cw_mark[o.ga[0]] >= o.ga[1]);
+    break;
+  case GV_MARK:
+    if(o.ga[0] > 0 && o.ga[0] < O_COUNT) g_cw_mark[o.ga[0]] = g_cw_entries[o.ga[0]];
+    break;
   }
 }
 
@@ -115,6 +439,7 @@ static void op(long, long, vh::Tok& t)
   else if(!strcmp(k, "get")) o.kind = K_GET;
   else if(!strcmp(k, "check")) o.kind = K_CHECK;
   else if(!strcmp(k, "pause")) { o.kind = K_PAUSE; o.pause = o.f; o.f = 0; }
+  else if(!strcmp(k, "gate")) { o.kind = K_GATE; o.f = 0; parse_gate(o, t); }
   else return;
   if(o.f < 0 || o.f >= MAXF || o.client < 0 || o.client >= MAXC) return;
   ++nops;
@@ -129,10 +454,18 @@ static bool valid()
   for(int i = 0; i < nops; ++i) {
     Op& o = ops[i];
     if(o.client >= cfg_clients) return false;
-    if(o.kind == K_PAUSE) continue;
+    if(o.kind == K_PAUSE || o.kind == K_GATE) continue;
     if(owner[o.f] < 0) owner[o.f] = o.client;
     if(owner[o.f] != o.client) return false;
-    if(o.kind == K_START) { if(act3[o.f]) return false; act3[o.f] = (o.work == 3); }
+    if(o.kind == K_START) {
+      if(act3[o.f]) return false;
+      if(o.work == 3) {
+        int pend = 0;
+        for(int f = 0; f < MAXF; ++f) if(act3[f]) ++pend;
+        if(o.client != 0 || pend >= 2) return false;
+      }
+      act3[o.f] = (o.work == 3);
+    }
     else if(o.kind == K_ABORT) act3[o.f] = false;
     else if(o.kind == K_JOIN || o.kind == K_GET) { if(act3[o.f]) return false; }
   }
@@ -144,15 +477,17 @@ static void stamp_join(Op& o)
 {
   CallRec* r = active[o.f];
   if(!r) { o.n = 0; o.after = -1; return; }
-  unsigned long now = __sync_add_and_fetch(&g_seq, 1);
+  unsigned long now = __atomic_add_fetch(&g_seq, 1, __ATOMIC_SEQ_CST);
   unsigned long d = r->done_stamp;
   o.n = serial[o.f];
   o.after = (d != 0 && d < now && r->runs == 1) ? 1 : 0;
+  active[o.f] = 0;   // joined: a further join()/conversion does not wait for anything
 }
 
 static void* client(void* p)
 {
   int me = (int)(long)p;
+  tl_role = 1 + me;
   pthread_barrier_wait(&bar);
   for(int i = 0; i < nops; ++i) {
     Op& o = ops[i];
@@ -175,6 +510,7 @@ static void* client(void* p)
       o.ab = futs[o.f]->isAborting() ? 1 : 0;
       break;
     case K_PAUSE: if(o.pause <= 0) sched_yield(); else usleep((useconds_t)o.pause * 100); break;
+    case K_GATE: exec_gate(o); break;
     }
   }
   return 0;
@@ -187,13 +523,17 @@ static void end(long c)
   if(!cfg_lazy)
     P::_threadPool = new P::ThreadPool(cfg_min, cfg_max, cfg_q);
   g_seq = 0;
+  g_perturb = cfg_perturb;
   for(int f = 0; f < MAXF; ++f) { futs[f] = new Future<int64>; serial[f] = 0; active[f] = 0; }
   pthread_t th[MAXC];
+  g_phase = 1;
   pthread_barrier_init(&bar, 0, cfg_clients);
   for(int k = 0; k < cfg_clients; ++k) pthread_create(&th[k], 0, client, (void*)(long)k);
   for(int k = 0; k < cfg_clients; ++k) pthread_join(th[k], 0);
   pthread_barrier_destroy(&bar);
+  gates_off();
   // the destructor joins what the scripts left running
+  g_phase = 2;
   for(int f = 0; f < MAXF; ++f) { delete futs[f]; futs[f] = 0; }
   for(int i = 0; i < nops; ++i) {
     Op& o = ops[i];
@@ -209,16 +549,27 @@ static void end(long c)
       else printf("%ld get %d %d %ld | after %d res %lld\n", c, o.client, o.f, o.n, o.after, o.res);
       break;
     case K_CHECK: printf("%ld check %d %d %ld | st %c ab %d\n", c, o.client, o.f, o.n, o.st, o.ab); break;
-    case K_PAUSE: printf("%ld pause %d\n", c, o.client); break;
+    case K_PAUSE: case K_GATE: printf("%ld pause %d\n", c, o.client); break;
     }
   }
-  // pool statistics (informational, '#' lines are ignored by the comparison)
-  if(P::_threadPool)
-    printf("#pool %ld pushed=%lu processed=%lu threads=%lu\n", c, (unsigned long)P::_threadPool->_pushedJobs,
-           (unsigned long)P::_threadPool->_processedJobs, (unsigned long)P::_threadPool->_threadCount);
+  // pool counters: the number of run() calls is schedule independent, the worker count is bounded
+  if(P::_threadPool) {
+    printf("%ld pool pushed %lu tc_ok %d\n", c, (unsigned long)P::_threadPool->_pushedJobs,
+           (P::_threadPool->_threadCount <= P::_threadPool->_maxThreads) ? 1 : 0);
+    printf("#pool %ld pushed=%lu processed=%lu threads=%lu points=%lu gate_timeouts=%d\n", c, (unsigned long)P::_threadPool->_pushedJobs,
+           (unsigned long)P::_threadPool->_processedJobs, (unsigned long)P::_threadPool->_threadCount, (unsigned long)g_points, (int)g_gate_timeouts);
+  } else
+    printf("%ld pool pushed 0 tc_ok 1\n", c);
   for(int i = 0; i < nops; ++i) if(ops[i].rec) { free(ops[i].rec); ops[i].rec = 0; }
   // retire the pool (its destructor pushes one null job per worker and joins them)
+  g_phase = 3;
   if(P::_threadPool) { delete P::_threadPool; P::_threadPool = 0; }
+  g_perturb = 0; g_phase = 0;
 }
 
-int main(int argc, char** argv) { return vh::run(argc, argv, begin, op, end); }
+int main(int argc, char** argv)
+{
+  tl_role = 100;
+  g_trace = getenv("VERIF_GATE_TRACE") ? 1 : 0;
+  return vh::run(argc, argv, begin, op, end);
+}
